@@ -4,6 +4,8 @@ package main
 
 import (
 	"fmt"
+	"go/ast"
+	"go/constant"
 	"go/token"
 	"go/types"
 	"sort"
@@ -16,7 +18,7 @@ func init() { register("C01", true, checkC01) }
 
 func checkC01(p *Prog, r *Report) {
 	r.Explain("Over all library functions reachable from the decode entry points (VTA call graph): EXP enumerates explicit panics / process exits; BND enumerates every index, slice, string index and length-requiring call and discharges each with the E3 bounds prover (intervals + difference constraints from definitions, dominating branch conditions, verified callee contracts under the nil-error edge, caller-side required lengths; entry points may require nothing of their arguments); DIV every integer division; NILF every call through a function value must be dominated by its nil test; TA every non-comma-ok type assertion; REC: obligations inside functions that are only reachable through a frame whose deferred closure calls recover() and assigns the error result are discharged by containment (run-time panics implement error). RECUR (shared with C02): every call-graph cycle is depth-counted, a parent-chain delegation or a constant-argument call, so the stack depth does not follow the input (stack exhaustion is fatal and no recover frame contains it). Nil-pointer dereferences in general and panics inside dependencies are not decided here.")
-	r.Trusted("bufio.Reader.Peek(n): err == nil ⇒ len = n; Discard(n): err == nil ⇒ n discarded", "io.Reader contract 0 <= n <= len(p)", "encoding/binary UintN/PutUintN require len >= N/8", "copy, append, map reads, string(b) never panic", "errors.New results and never-reassigned package-level error variables are non-nil", "int is 64 bit")
+	r.Trusted("bufio.Reader.Peek(n): err == nil ⇒ len = n; Discard(n): err == nil ⇒ n discarded", "io.Reader contract 0 <= n <= len(p)", "encoding/binary UintN/PutUintN require len >= N/8", "copy, append, map reads, string(b) never panic", "errors.New results and never-reassigned package-level error variables are non-nil", "int is 64 bit", "strings/bytes Index*, LastIndex*: -1 <= r <= len(s)-1 (<= len(s) for substring searches)")
 	dec, err := p.DecEntries()
 	if err != nil {
 		r.Fatal(err.Error())
@@ -326,17 +328,83 @@ func ruleNILF(p *Prog, r *Report, fs []*ssa.Function) {
 					}
 				}
 			}
-			// a package-level func variable that is never nil (initialised, never reassigned to nil) is INV's business
+			// a package-level func variable that is never nil (initialised, never reassigned to nil) is INV's business;
+			// an element of a package-level table of functions is non-nil only if the table has no gaps
 			if g := loadOfGlobal(v); g != nil {
 				ok = true
+				if u, isLoad := v.(*ssa.UnOp); isLoad {
+					if _, isElem := u.X.(*ssa.IndexAddr); isElem {
+						if gaps, known := funcTableGaps(p, g); !known || gaps > 0 {
+							ok = false
+							r.Bad("NILF", key, at, fmt.Sprintf("call through an element of the function table %s, which has %d unset (nil) entries within its length (or is not a literal): an index that selects one of them panics", globalName(g), gaps))
+							return
+						}
+					}
+				}
 			}
 			if ok {
-				r.OK("NILF", key, at, "dominated by the non-nil edge of a nil test on the same value")
+				r.OK("NILF", key, at, "dominated by the non-nil edge of a nil test on the same value, or a package-level function value / gap-free function table")
 			} else {
 				r.Bad("NILF", key, at, "call through a function value that is not dominated by a nil test: a nil callback panics")
 			}
 		})
 	}
+}
+
+// funcTableGaps: g is a package-level array/slice of functions initialised by a composite literal, never stored to
+// outside init → number of index positions below its length that the literal leaves unset.
+func funcTableGaps(p *Prog, g *ssa.Global) (int, bool) {
+	t := p.Tables()
+	tv := t.Val(g)
+	if tv == nil || tv.Expr == nil {
+		return 0, false
+	}
+	cl, ok := tv.Expr.(*ast.CompositeLit)
+	if !ok {
+		return 0, false
+	}
+	t.scan()
+	if t.storeOutsideInit[g] || t.elemMut[g] {
+		return 0, false
+	}
+	next, maxIdx := int64(0), int64(-1)
+	set := map[int64]bool{}
+	for _, el := range cl.Elts {
+		idx := next
+		val := el
+		if kv, ok := el.(*ast.KeyValueExpr); ok {
+			tvk, ok := tv.Pkg.TypesInfo.Types[kv.Key]
+			if !ok || tvk.Value == nil {
+				return 0, false
+			}
+			k, exact := constant.Int64Val(tvk.Value)
+			if !exact {
+				return 0, false
+			}
+			idx = k
+			val = kv.Value
+		}
+		if id, ok := val.(*ast.Ident); ok && id.Name == "nil" {
+			// an explicit nil entry is a gap
+		} else {
+			set[idx] = true
+		}
+		if idx > maxIdx {
+			maxIdx = idx
+		}
+		next = idx + 1
+	}
+	n := maxIdx + 1
+	if arr, ok := g.Type().(*types.Pointer).Elem().Underlying().(*types.Array); ok {
+		n = arr.Len()
+	}
+	gaps := 0
+	for i := int64(0); i < n; i++ {
+		if !set[i] {
+			gaps++
+		}
+	}
+	return gaps, true
 }
 
 // noStoreBetween: no store to the loaded address between the two loads (same function; conservative:
